@@ -93,6 +93,14 @@ def run_case(al, case, n, maxlen, maxmem, route, memroute, zero_num=0):
     _INPUT_ROUTE[0] += 1
     r = _INPUT_ROUTE[0] % 5
     sig = xs if r == 0 else iter(xs) if r == 1 else (x for x in xs) if r == 2 else al.Stream(xs) if r == 3 else tuple(xs)
+    if _INPUT_ROUTE[0] % 2:
+        # the filter OBJECT has run before, on another input with another zero value and no memory: a call
+        # leaves no trace in the next one (constant coefficients only: coefficient Streams are used up by a call)
+        if all(c["k"] == "c" for c in case["b"] + case["a"]):
+            try:
+                list(f([5, -3, 2], zero=7))
+            except Exception:                                   # noqa: the judged call below is what counts
+                pass
     try:
         res = f(sig, **kw)
         out = list(res)
